@@ -1,5 +1,11 @@
 import Biogo.Properties.C02
 open Biogo.Properties.C02
+#print axioms parseInt_formatInt
+#print axioms bed_roundtrip
+#print axioms bed_narrow
+#print axioms bed_narrow_read
+#print axioms bed_write_count
+#print axioms bed_write_wider_refused
 #print axioms oneToZero_zeroToOne
 #print axioms zeroToOne_oneToZero
 #print axioms oneToZero_none_iff
